@@ -25,9 +25,16 @@ class Files(staticfiles.BaseFiles[ASGIApp]):
         if_none_match: str,
         if_modified_since: str,
     ) -> Response:
-        if self.if_none_match(
-            FileResponse.generate_etag(stat_result), if_none_match
-        ) or self.if_modified_since(stat_result.st_ctime, if_modified_since):
+        if if_none_match:
+            # If-None-Match takes precedence, If-Modified-Since is ignored (RFC 7232 3.3)
+            not_modified = self.if_none_match(
+                FileResponse.generate_etag(stat_result), if_none_match
+            )
+        else:
+            not_modified = self.if_modified_since(
+                stat_result.st_ctime, if_modified_since
+            )
+        if not_modified:
             response = Response(304)
         else:
             response = FileResponse(filepath, stat_result=stat_result)
